@@ -191,6 +191,20 @@ def c01_3(ctx: Ctx) -> RuleResult:
     for f, c in filt_sites:
         t = X.at(f, c)
         recv = t[1][1]
+        # every configured filter is visited: the loop over the filters is never left early
+        lp = parent(c)
+        while lp is not None and not isinstance(lp, (ast.For, ast.While)):
+            lp = parent(lp)
+        if lp is not None:
+            early = [n for n in ast.walk(lp) if isinstance(n, (ast.Break, ast.Return))]
+            ok = not early and not lp.orelse
+            res.add(f, lp, "the loop over the realization filters visits every filter (skips use `continue`, never `break`/`return`)", ok,
+                    "" if ok else f"`{norm_stmt(early[0]) if early else 'else'}` leaves the loop: filters after an unused one are never applied to the rows mapped to them",
+                    construct=f"{f.name}: rows of all filters visited")
+            it = X.at(f, lp.iter)
+            ok = it[0] == "call" and it[1] == ("builtin", "enumerate") and it[2] and it[2][0] == recv[1] if recv[0] == "iter" else False
+            res.add(f, lp, "the loop enumerates the full list of filter objects (index k pairs with filter k)", ok,
+                    "" if ok else f"loop iterates `{show(it, 60)}`", construct=f"{f.name}: rows enumerate all filters")
         # stores of the result
         var = None
         p_ = parent(c)
@@ -403,3 +417,17 @@ def c01_6(ctx: Ctx) -> RuleResult:
         raise AnalysisError("no FunctionResults construction with computed functions found")
     res.floor = 6
     return res
+
+
+# --------------------------------------------------------------------- C01.7
+@rule(P)
+def c01_7(ctx: Ctx) -> RuleResult:
+    """Failed = any NaN in the realization's row (shared with C03.1): a realization
+    that fails only in a constraint column must still get zero weight."""
+    from .c03 import c03_1
+
+    r = c03_1(ctx)
+    for i in r.instances:
+        i.rule = "C01.7"
+    r.rule, r.title = "C01.7", "every NaN in a realization's objectives or constraints marks the realization as failed (so that it gets zero weight)"
+    return r
